@@ -66,9 +66,10 @@ type Segment struct {
 	RSShared int        `json:"rs_shared,omitempty"`
 	Phases   [][][]Call `json:"phases,omitempty"` // phase -> worker -> program
 
-	GCPct int  `json:"gc_pct,omitempty"` // percent of call boundaries before which the caller forces a garbage collection
-	Procs int  `json:"procs,omitempty"`  // GOMAXPROCS of the node process (0: default 2)
-	NoSim bool `json:"no_sim,omitempty"` // run the calls natively, without the simulator (input probing only; never used as an oracle)
+	MidJumpPPM int  `json:"mid_jump_ppm,omitempty"` // per-step probability (ppm) of a 1 ms..10 s fake-clock jump in the middle of calls
+	GCPct      int  `json:"gc_pct,omitempty"`       // percent of call boundaries before which the caller forces a garbage collection
+	Procs      int  `json:"procs,omitempty"`        // GOMAXPROCS of the node process (0: default 2)
+	NoSim      bool `json:"no_sim,omitempty"`       // run the calls natively, without the simulator (input probing only; never used as an oracle)
 
 	// explicit replay: when Choices is non-nil the policy and stalls are ignored
 	Choices []int32  `json:"choices,omitempty"`
@@ -131,9 +132,11 @@ type Result struct {
 	Preempts    int              `json:"preempts"`
 	MapRanges   int              `json:"map_ranges"`
 	ClockJumps  int              `json:"clock_jumps"`
-	Pairs       int              `json:"pairs"`     // channel rendezvous completed by releasing both parties together
-	Selects     int              `json:"selects"`   // select statements whose clause the scheduler chose
-	Fallbacks   int              `json:"fallbacks"` // goroutines let into a real operation on a channel fed from outside the model
+	Timers      int              `json:"timers"`      // timers announced to the scheduler
+	TimerFires  int              `json:"timer_fires"` // receives released because a timer was due
+	Pairs       int              `json:"pairs"`       // channel rendezvous completed by releasing both parties together
+	Selects     int              `json:"selects"`     // select statements whose clause the scheduler chose
+	Fallbacks   int              `json:"fallbacks"`   // goroutines let into a real operation on a channel fed from outside the model
 	Aux         []uint32         `json:"aux,omitempty"`
 	FairKicks   int              `json:"fair_kicks"`
 	SimNs       int64            `json:"sim_ns"`         // fake-clock time that passed inside the bubble
